@@ -1,6 +1,7 @@
 """Miscellaneous utilities."""
 
 import functools
+import math
 import re
 import typing
 from itertools import count
@@ -130,7 +131,12 @@ class NameDatabase:
         return name
 
     def __getitem__(self, value):
-        if isinstance(value, (int, float, str)):
+        # Only plain literals are written into the generated code as text:
+        # the repr of an enum member, of an instance of another subclass of
+        # int / str, or of inf / nan does not evaluate back to the value.
+        if type(value) in (int, str) or (
+            type(value) is float and math.isfinite(value)
+        ):
             return repr(value)
         if id(value) in self.names:
             return self.names[id(value)]
